@@ -25,6 +25,16 @@ ASSUMPTIONS = [
     "CountError message is only required to contain the match count and the violated bound as decimal numbers before the result repr",
 ]
 VALUES = [1, "1", 2, "b", None]
+NODE_CLASSES = {"AnyNode": AnyNode}
+
+
+def _register_classes():
+    from . import c10
+
+    NODE_CLASSES.update({"LenAnyNode": c10.LenAnyNode, "EqAnyNode": c10.EqAnyNode})
+
+
+_register_classes()
 MISSING = "<missing>"
 
 
@@ -38,7 +48,7 @@ def build(case):
             val = case["attrs"][idx].get(key, MISSING)
             if val != MISSING:
                 attrs[key] = val
-        node = AnyNode(**attrs)
+        node = NODE_CLASSES[case.get("cls", "AnyNode")](**attrs)
         node.idx = idx
         if parent is not None:
             node.parent = tree[parent]
@@ -215,6 +225,7 @@ def random_cases(draw, max_nodes=20):
         "hide": draw(strategies.subsets_of(size, max_size=size)),
         "maxlevel": draw(st.one_of(st.none(), st.none(), st.integers(0, 5))),
         "by": {"name": draw(st.sampled_from(["name", "kind"])), "value": draw(st.sampled_from(VALUES))},
+        "cls": draw(st.sampled_from(["AnyNode", "AnyNode", "LenAnyNode", "EqAnyNode"])),
         "mutations": draw(st.lists(st.one_of(strategies.tree_mutation_op(), st.tuples(st.just("rename"), st.integers(0, 30), st.sampled_from(VALUES), st.sampled_from(["name", "kind"])).map(list)), max_size=3)),
     }
 
